@@ -31,7 +31,8 @@ Mirrored as written (param/parameterized.py):
 
 Not modelled: batching (every assignment is dispatched at once), slots (`what != 'value'`),
 `'….param'` below depth 1 and path elements that are not object-valued (rejected: `illFormed`).
-An exception ends the history (the partially updated state is not modelled).
+An exception of the LIBRARY (rejected value, unresolvable dependency) ends the history; an exception
+raised by a dependent method's body leaves the dispatch loop (`raised`) and the history goes on.
 No Mathlib: loaded by the driver.
 -/
 import ParamVerif.Depends.ClassTable
@@ -65,6 +66,7 @@ def PathSpec.elems (s : PathSpec) : List Name := s.path ++ [s.leaf]
 structure PMethod where
   name : Name
   specs : List PathSpec       -- the entry's `dynamic_deps`
+  raises : List Nat := []     -- the body raises on these invocations (1 = the first call of the method on an object)
   deriving Repr, DecidableEq
 
 structure PClass where
@@ -109,6 +111,8 @@ structure PWorld where
   dyn : List ((Oid × Name) × List Nat)   -- `dynamic_watchers[method]` of each object: watcher ids
   nextId : Nat
   log : List Call
+  hist : List (Oid × Name) := []         -- every invocation so far (never reset): decides which call raises
+  raised : Bool := false                 -- an exception raised by a method body is propagating
   deriving Repr
 
 /-! ### reading the graph -/
@@ -354,7 +358,23 @@ path does not resolve, and for `'….param'`) -/
 def readsOf (w : PWorld) (t : Oid) (method : Name) : List Val :=
   (methodSpecs w t method).map (fun s => if s.leaf = "param" then .none else follow w (.ref t) s.elems)
 
-/-- src: _call_watcher (changes-only, not batching) → _sync_caller -/
+/-- does the body of `t.method` raise on its next invocation -/
+def shouldRaise (w : PWorld) (t : Oid) (method : Name) : Bool :=
+  match classOf w t with
+  | some c =>
+    match c.methods.find? (fun m => m.name = method) with
+    | some m => m.raises.contains (w.hist.count (t, method) + 1)
+    | none => false
+  | none => false
+
+/-- `function()`: the generated method logs what it reads, then possibly raises -/
+def invoke (w : PWorld) (x : DW) : PWorld :=
+  { w with log := w.log ++ [⟨x.owner, x.method, readsOf w x.owner x.method⟩],
+           hist := w.hist ++ [(x.owner, x.method)],
+           raised := shouldRaise w x.owner x.method }
+
+/-- src: _call_watcher (changes-only, not batching) → _sync_caller: the rebinding callback runs BEFORE the
+method, so an exception raised by the method propagates with the dependencies already rebound -/
 def callWatcherP (w : PWorld) (x : DW) (p : Name) (old new : Val) : Except PErr PWorld :=
   if valEq old new then .ok w
   else
@@ -365,14 +385,14 @@ def callWatcherP (w : PWorld) (x : DW) (p : Name) (old new : Val) : Except PErr 
     | .error e => .error e
     | .ok w1 =>
       if skipEvent w1 x.changed p old new then .ok w1
-      else .ok { w1 with log := w1.log ++ [⟨x.owner, x.method, readsOf w1 x.owner x.method⟩] }
+      else .ok (invoke w1 x)
 
 def dispatchP (w : PWorld) (p : Name) (old new : Val) : List DW → Except PErr PWorld
   | [] => .ok w
   | x :: rest =>
     match callWatcherP w x p old new with
     | .error e => .error e
-    | .ok w1 => dispatchP w1 p old new rest
+    | .ok w1 => if w1.raised then .ok w1 else dispatchP w1 p old new rest   -- the exception leaves the loop
 
 def setVals : List (Name × Val) → Name → Val → List (Name × Val)
   | [], _, _ => []
